@@ -36,6 +36,62 @@ def judge(chk, trace, mm):
                      f"{sorted(d['frames'])[:6]} audio={d['audio']} stuck={d['stuck']}", lambda m=m, trace=trace: run_of(trace, m[1]), extra=m)
 
 
+def asset_run_of(trace, lineno):
+    """the asset run (from its aopen event) up to the offending call"""
+    run = []
+    with open(trace) as f:
+        for i, line in enumerate(f, 1):
+            if '"ev":"aopen"' in line:
+                run = []
+            run.append(line)
+            if i == lineno:
+                break
+    return run
+
+
+def assets(chk, wd, seed, quick):
+    """asset clause: the repository's asset implementations against the stream contract of Asset.tla"""
+    r_mc = tlc("MC_Asset", "MC_Asset.cfg", PID, "mc_asset", workers=2, deque=False, timeout=900)
+    if not r_mc.ok:
+        chk.violation(f"MC_Asset: {r_mc.error}")
+    chk.add_spec_run("MC_Asset.cfg", r_mc, "files of 0..4 bytes, any position, read_exact of 0..5 bytes over every short-read pattern and both end-of-file conventions: contract, progress, termination")
+    trace = os.path.join(wd, "assets.ndjson")
+    harness(["assets", "--out", trace, "--seed", seed, "--files", 10 if quick else 80, "--ops", 60])
+    r = tlc("AssetTrace", "AssetTrace.cfg", PID, "assets", trace=trace, timeout=3000)
+    summ = r.tuples("SUMMARY")
+    if not r.ok or not summ:
+        raise ToolError(f"AssetTrace did not complete on {trace}: {r.error}")
+    chk.cov["events_validated"] += summ[0][1]
+    chk.cov["states"] += r.distinct
+    chk.cov["transitions"] += r.generated
+    seen = set()
+    for m in r.tuples("MISMATCH"):
+        if m[2] in seen:
+            continue        # one report per implementation: later calls of a run cascade
+        seen.add(m[2])
+        chk.classify(f"asset:{m[2]}:{m[3]['op']}", f"asset {m[2]}: {m[3]['op']}{m[3]['arg']} returned {str(m[3]['res'])[:200]} with the position in "
+                     f"{sorted(m[3]['positions'])[:4]} of {m[3]['len']} bytes", lambda m=m: asset_run_of(trace, m[1]), extra=m)
+    # binding self-test: one wrong byte, one wrong position
+    st = os.path.join(wd, "assets_selftest.ndjson")
+    n = 0
+    with open(trace) as f, open(st, "w") as g:
+        for i, line in enumerate(f):
+            e = json.loads(line)
+            if e.get("op") == "read" and e["res"]["kind"] == "ok" and e["res"]["bytes"] and n == 0:
+                e["res"]["bytes"][0] ^= 1; n += 1
+            elif e.get("op") == "seek" and e["res"]["kind"] == "ok" and n == 1 and i > 70:
+                e["res"]["pos"] += 1; n += 1
+            g.write(json.dumps(e) + "\n")
+            if i > 400:
+                break
+    r2 = tlc("AssetTrace", "AssetTrace.cfg", PID, "assets_selftest", trace=st, timeout=600)
+    rejected = len({m[2] for m in r2.tuples("MISMATCH")})
+    chk.cov["selftest_assets"] = {"corrupted_events": n, "rejected_runs": rejected, "ok": n == 2 and rejected >= 2}
+    if not chk.cov["selftest_assets"]["ok"]:
+        chk.selftest_failed("corrupted asset calls were not rejected")
+    return summ[0][1]
+
+
 def run(tier, seed):
     chk = Check(PID, tier, seed, "model_checking")
     wd = workdir(PID)
@@ -52,6 +108,7 @@ def run(tier, seed):
         return (trace,) + validate(trace, f"t{k}")
 
     res = parallel([mc] + [lambda k=k: shard(k) for k in range(shards)])
+    n_assets = assets(chk, wd, seed, quick)
     r = res[0]
     if not r.ok:
         chk.violation(f"MC_Emu: {r.error}")
@@ -82,7 +139,9 @@ def run(tier, seed):
                        f"(real-time load); random key presses at frame boundaries) x {100 if quick else 600} frames x 18 drivings: FrameCount(1) twice (repeatability), random FrameCount(n) partitions, "
                        "Max mode, breakpoints every k instructions with resume (k random) and after every instruction (so that a stop coincides with every other per-instruction event), FrameCount(n) with breakpoint stops (twice), a different way of driving for every call (twice), sound off, audio never drained, tape asset "
                        "with 1-byte reads, 7-byte reads with Ok(0) at EOF, a real file, gzip; digest = registers + clock + all RAM + screen and border "
-                       "buffers + border colour + paging; audio stream compared where the drain policy is the same")
+                       "buffers + border colour + paging; audio stream compared where the drain policy is the same. Asset clause: "
+                       f"{10 if quick else 80} files of 0..64 bytes x 6 asset implementations (BufferCursor, FileAsset, GzipAsset, DynamicAsset around each) "
+                       f"x 60 random read / read_exact / seek calls ({n_assets} calls) judged by Asset.tla")
     chk.assumptions += ["frames are counted by Completed / Timeout returns; host inputs are applied at frame numbers that are multiples of 4, where every driving hands control back"]
     return chk.finish()
 
